@@ -53,8 +53,8 @@ CHECKS = {
              'documented offset, and the S/F hook records of the same read must carry that position.  Out-of-range '
              'addresses, reads past the end of truncated files and MMB slots with status F0/FF/illegal must fail '
              'with a diagnostic and no data.',
-        note='MMB drive numbers are taken under --drive-first.  Known finding: side 1 of a two-sided non-interleaved '
-             'ssd/sdd is never attached (see known_findings.txt).'),
+        note='MMB drive numbers are taken under --drive-first.  Two-sided non-interleaved ssd/sdd images are probed '
+             'with side 1 expected on drive 2.'),
     'C17': dict(
         category='fault_enumeration', design_ref='DESIGN.md section 2, C17',
         technique='boundary fault enumeration with unique-sector attribution of every output block and V/S hook limit invariant',
